@@ -190,7 +190,7 @@ def transition_lookup_rules(ctx):
     for pat in (r"CompiledScannerMode::has_transition$",):
         ht = F.fn(pat)
         ctx.analysed_fn(ht)
-        ex, paths = run_fn(ht, F, Model())
+        ex, paths = run_fn(ht, F, Model(), desugar=r".")
         table = {}
         for p in paths:
             got_item = any(e[0] == "call" and re.search(r"Iterator>::next$", e[2]) for e in p.events) and any("item@" in S.fstr(c) for c, o in p.conds)
@@ -472,7 +472,13 @@ def check(ctx):
     for p in ret_paths(paths):
         g = [c for c in p.calls(r"::get(::<.*>)?$") if len(c[3]) == 2]
         s = S.fstr(p.end[1])
-        ok = "scanner_modes" in s and len(g) == 1 and g[0][3][1] == ("sym", "index") and "scanner_modes" in S.fstr(ex.deref_val(p, g[0][3][0]) if g[0][3][0][0] == "ref" else g[0][3][0])
+        rv = p.end[1]
+        ok = len(g) == 1 and g[0][3][1] == ("sym", "index") and "scanner_modes" in S.fstr(ex.deref_val(p, g[0][3][0]) if g[0][3][0][0] == "ref" else g[0][3][0])
+        # the name of the mode found, or None when the index names no mode (Option::map written out or not)
+        if ok and rv[0] == "adt" and rv[2] == "None":
+            ok = variant_of(ex, p, g[0][4]) == "None"
+        elif ok:
+            ok = S.mentions(rv, lambda x: x == g[0][4]) and ("name" in s)
         ctx.ob("C06.g", "mode_name-looks-up-index", ok, "returns %s" % s, mn.loc())
     # Scanner::set_mode only touches its own inner (C06.e: iterators own a clone)
     ss = F.fn(r"<scanner::Scanner as scanner::ScannerModeSwitcher>::set_mode$")
